@@ -124,6 +124,12 @@ func (s *Scn) do(op string) Outcome {
 		return Outcome{Err: err}
 	}
 
+	if s.ExtOp != nil {
+		// operations defined by the running check (followers, VFS files, ...)
+		if o, ok := s.ExtOp(s, name, arg); ok {
+			return o
+		}
+	}
 	if s.Remote != nil && isLSOp(name) {
 		if s.RemoteDead {
 			return ill
